@@ -627,6 +627,8 @@ inline bool check_goc(const std::string &prop, const std::string &site, const In
     const int solo = in.arr->axes.size() == 1 ? 0 : -1;
     if (!x.block_defined) {
         const std::string as = in.plain ? in.plain_assertion : "empty region raises an out-of-bounds error";
+        // (a count of zero on the empty axis would describe the empty set as well: the statement does not exclude it)
+        if (g.exc.empty() && x.empty_axis >= 0 && static_cast<size_t>(x.empty_axis) < g.cnt.size() && g.cnt[x.empty_axis] == 0) return true;
         if (g.exc.empty()) { vf::violation(sig(x.empty_axis, as, "returned an offset and count instead of raising"), inst); return false; }
         if (!is_oob(g.exc)) { vf::violation(sig(x.empty_axis, as, "raised an error that is not an out-of-bounds error"), inst); return false; }
         return true;
